@@ -242,7 +242,7 @@ func genCase(t *rapid.T) Case {
 	cur := float64(tempo.DefaultUSPQ)
 	var ticks []int64
 	for i := 0; i < n; i++ {
-		d := rapid.OneOf(rapid.Just(uint32(0)), rapid.Uint32Range(0, 3), rapid.Uint32Range(0, 2000), rapid.Uint32Range(0, 1<<20), rapid.Uint32Range(0, 1<<28)).Draw(t, "tempoDelta")
+		d := rapid.OneOf(rapid.Just(uint32(0)), rapid.Uint32Range(0, 3), rapid.Uint32Range(0, 2000), rapid.Uint32Range(0, 1<<20), rapid.Uint32Range(0, 0x0FFFFFFF)).Draw(t, "tempoDelta")
 		if i == 0 && rapid.Bool().Draw(t, "firstAt0") {
 			d = 0
 		}
@@ -286,7 +286,7 @@ func genCase(t *rapid.T) Case {
 			m := rapid.IntRange(1, 8).Draw(t, "nNotes")
 			var a int64
 			for j := 0; j < m; j++ {
-				d := rapid.OneOf(rapid.Uint32Range(0, 3), rapid.Uint32Range(0, uint32(min(abs+1000, 1<<28)))).Draw(t, "noteDelta")
+				d := rapid.OneOf(rapid.Uint32Range(0, 3), rapid.Uint32Range(0, uint32(min(abs+1000, 0x0FFFFFFF)))).Draw(t, "noteDelta")
 				if a+int64(d) >= 1<<31 {
 					d = 0
 				}
